@@ -115,6 +115,76 @@ def run(ctx):
             ctx.count(["alias", c["e"]], nontrivial=True, bucket="alias/" + c["e"][0])
             if "ok" in r and r["ok"]["changed"]:
                 ctx.fail("alias", c, "mutating the result of the history in place (round_zeros) changed operand literal(s) %s: the result aliases an operand" % r["ok"]["changed"])
+    # ---- sampled sup norm: certified two-sided bounds (0.1 percent) through the verified sup certificate
+    if ctx.replay is None or ctx.replay.get("site") == "inf_norm":
+        import supcert
+        icases = []
+        degs = [1, 2, 3, 5, 8, 12] if quick else [1, 2, 3, 5, 8, 12, 20, 30, 40, 50]
+        for nco in degs:
+            for rep in range(1 if quick else 2):
+                fam = rng.choice(["int", "generic", "dyadic"])
+                v = exprs.gen_vec(rng, fam, nco + 1, zeros=False)
+                if all(x == 0 for x in v):
+                    v[0] = 1.0
+                icases.append({"e": ["lit", 2 * rng.randint(-5, 3) + rng.randint(0, 1), v], "fam": fam})
+        if ctx.replay is not None:
+            icases = [ctx.replay["case"]]
+        ires = run_impl([{"fn": "pexpr", "e": exprs.p_json(c["e"]), "keys": [], "inf_norm": True} for c in icases])
+        ilines, ikeep = [], []
+        for c, r in zip(icases, ires):
+            ctx.count(["inf_norm", c["e"]], nontrivial=len(c["e"][2]) >= 2, bucket="inf_norm/len=%d" % len(c["e"][2]))
+            if "exc" in r:
+                ctx.fail("inf_norm", c, "inf_norm raised %s" % r["exc"])
+                continue
+            v = fr(r["ok"]["inf_norm"])
+            co = [fr(x) for x in c["e"][2]]
+            n = len(co)
+            s_ser = [sum(co[k] * co[k + m] for k in range(n - m)) * (1 if m == 0 else 2) for m in range(n)]
+            M2 = (v * Fraction(1001, 1000)) ** 2
+            m2 = (v * Fraction(999, 1000)) ** 2
+            sf = [float(x) for x in s_ser]
+            kind, data = supcert.make_cells(sf, float(M2), max_cells=(40000 if quick else 400000))
+            if kind == "exceeds":
+                ilines.append("(inflb %d %s %s %s %s)" % (c["e"][1], "(" + " ".join(qs(x) for x in co) + ")", "(" + " ".join(qs(x) for x in s_ser) + ")",
+                                                          qs(fr(data)), qs(M2)))
+                ikeep.append((c, "above", v))
+                continue
+            if kind != "cover":
+                ctx.bucket("inf_norm undecided: " + str(data)[:30])
+                continue
+            ilines.append("(infub %d %s %s %s %s)" % (c["e"][1], "(" + " ".join(qs(x) for x in co) + ")", "(" + " ".join(qs(x) for x in s_ser) + ")",
+                                                      supcert.cells_sexp(data), qs(M2)))
+            ikeep.append((c, "ub", v))
+            # lower bound: the best grid point in float arithmetic, then certified
+            best, bt = -1.0, 0.0
+            for j in range(4001):
+                t = math.pi * j / 4000
+                val = supcert.f_eval(sf, t)
+                if val > best:
+                    best, bt = val, t
+            ilines.append("(inflb %d %s %s %s %s)" % (c["e"][1], "(" + " ".join(qs(x) for x in co) + ")", "(" + " ".join(qs(x) for x in s_ser) + ")",
+                                                      qs(fr(bt)), qs(m2)))
+            ikeep.append((c, "lb", v))
+        imod = run_model(ilines, timeout=3000)
+        for (c, what, v), m in zip(ikeep, imod):
+            if m not in ("0", "1"):
+                ctx.infra_fail("extracted inf-norm checker failed: " + str(m)[:100])
+            elif what == "above" and m == "1":
+                ctx.fail("inf_norm", c, "inf_norm = %r is more than 0.1 percent below the true maximum modulus on the unit circle (certified witness)" % float(v))
+            elif what == "ub" and m == "1":
+                ctx.bucket("inf_norm upper bound certified")
+                ctx.instance_obligations += 1
+                ctx.instance_discharged += 1
+            elif what == "lb":
+                if m == "1":
+                    ctx.bucket("inf_norm lower bound certified")
+                    ctx.instance_obligations += 1
+                    ctx.instance_discharged += 1
+                else:
+                    # no point of the circle reaches 0.999 * inf_norm according to the grid: the value is too large
+                    ctx.fail("inf_norm", c, "inf_norm = %r exceeds the maximum modulus on the unit circle by more than 0.1 percent (no point reaches 0.999 of it)" % float(v))
+            else:
+                ctx.bucket("inf_norm undecided (%s rejected)" % what)
     # ---- in-Coq re-evaluation of a slice (extraction cross-check + instance obligations)
     sl = [i for i, c in enumerate(cases) if exprs.nops(c["e"]) <= 7][: (30 if quick else 120)]
     terms = []
@@ -133,7 +203,7 @@ def run(ctx):
     ctx.instance_discharged += ok
     if ok != len(terms):
         ctx.infra_fail("extraction cross-check: %d of %d histories re-evaluated by vm_compute disagree with the extracted binary %s" % (len(terms) - ok, len(terms), err))
-    ctx.residual.append("sampled sup norm for degree > 8 and point evaluation are compared against verified interval enclosures added in a later stage")
+    ctx.residual.append("point evaluation eval(theta) is compared with the exact model under the rounding budget, not with a verified enclosure")
 
 
 RULE = ("random operation histories (depth 0..3) over literals of length 0..40 from the int / dyadic / generic / "
